@@ -113,6 +113,19 @@ reg("C06", "exploration",
     "DESIGN.md section 3, C06")
 
 
+reg("C07", "exploration",
+    "Generated-input search with an adversarial environment: a stepping wall clock (installed before puresnmp is imported) "
+    "returns the next element of a generated schedule on every read, so request-id derivation is exercised across second "
+    "boundaries inside one operation; the reference agent either echoes ids (then every one of 12 operations, under v1, v2c "
+    "and SNMPv3 at three levels, must succeed with the database's answer) or perturbs the k-th response (id +1, -1, 0, random, "
+    "the previous request's id, foreign or previously-used community, empty community, other version number, foreign "
+    "discovery msgID), in which case InvalidResponseId / SnmpError must be raised and no value of that response returned. "
+    "One case in eight has a history (an exchange under other credentials, then configure()).",
+    "Trusts lib/vagent.py; nothing is assumed about how ids are derived; SNMPv3 data responses are only required to match on the PDU request-id.",
+    "Hypothesis property-based testing with a controlled stepping clock and a response-id/community perturbing agent",
+    "DESIGN.md section 3, C07")
+
+
 def main():
     present = sorted(os.path.basename(p)[:3].upper()
                      for p in glob.glob(os.path.join(VERIF, "checks", "c[0-9][0-9]_*.py")))
